@@ -158,13 +158,14 @@ let b2i b = if b then 1 else 0
 let trace_file path =
   let ic = open_in path in
   let cur = ref [] in
+  let init = ref [] in
   (try
     while true do
       let line = input_line ic in
       match String.split_on_char ' ' line with
       | "I" :: rest ->
         let l = List.map int_of_string (List.filter (fun s -> s <> "") rest) in
-        (match l with n :: r -> let (ts, _) = parse_atoks n r in cur := ts; Printf.printf "I %d %d\n" n (b2i (kinds_ok ts)) | _ -> failwith "bad I")
+        (match l with n :: r -> let (ts, _) = parse_atoks n r in cur := ts; init := ts; Printf.printf "I %d %d %d\n" n (b2i (kinds_ok ts)) (int_of_nat (n_lines ts)) | _ -> failwith "bad I")
       | "R" :: tag :: digest :: rest ->
         let l = List.map int_of_string (List.filter (fun s -> s <> "") rest) in
         (match l with
@@ -177,11 +178,12 @@ let trace_file path =
                 ({ e_start = nat_of_int st; e_stop = nat_of_int en; e_new = ts } :: es, r3)
               | _ -> failwith "bad edit") in
            let (es, _) = edits ne r in
+           let nl_before = int_of_nat (n_lines !cur) in
            let v = judge !cur es in
            let replay = (canon v.v_after = digest) in
            cur := v.v_after;
-           Printf.printf "R %s %d %d %d %d %d %d %d %d %d %d %d %d %d %d %d |%s\n" tag (b2i v.v_wf) (b2i replay) (b2i v.v_c01) (b2i v.v_c01_strict) (b2i v.v_paren) (b2i v.v_lenpres)
-             (b2i v.v_c02) (b2i v.v_c02_rem) (b2i v.v_layout) (b2i v.v_case) (b2i v.v_ident) (b2i v.v_same_count) (b2i v.v_cterm) (b2i v.v_wsadj) (b2i v.v_kinds_ok)
+           Printf.printf "R %s %d %d %d %d %d %d %d %d %d %d %d %d %d %d %d %d |%s\n" tag (b2i v.v_wf) (b2i replay) (b2i v.v_c01) (b2i v.v_c01_strict) (b2i v.v_paren) (b2i v.v_lenpres)
+             (b2i v.v_c02) (b2i v.v_c02_rem) (b2i v.v_layout) (b2i v.v_case) (b2i v.v_ident) (b2i v.v_same_count) (b2i v.v_cterm) (b2i v.v_wsadj) (b2i v.v_kinds_ok) nl_before
              (String.concat "" (List.map (fun n -> " " ^ string_of_int (int_of_nat n)) v.v_changed))
          | _ -> failwith "bad R")
       | "S" :: isnorm :: rest ->
@@ -194,17 +196,28 @@ let trace_file path =
              else canon !cur = canon ts in
            cur := ts; Printf.printf "S %s %d\n" isnorm (b2i ok)
          | _ -> failwith "bad S")
-      | "E" :: digest :: _ -> Printf.printf "E %d\n" (b2i (canon !cur = digest))
+      | "E" :: digest :: _ -> Printf.printf "E %d %d %d %d %d\n" (b2i (canon !cur = digest)) (b2i (run_c01 !init !cur)) (b2i (run_c02_eq !init !cur)) (b2i (run_c02_sub !init !cur)) (int_of_nat (n_lines !cur))
       | _ -> ()
     done
   with End_of_file -> ());
   close_in ic
+
+(* token index: "LOGICAL PARSER COMMA OPENPAREN -1 b s b s ... -1 qb qs qb qs ... -1" -> positions per query *)
+let index_mode line =
+  let rec pairs = function a :: b :: r -> (nat_of_int a, nat_of_int b) :: pairs r | _ -> [] in
+  match split_lines (ints line) with
+  | [lo; pa; co; op] :: keys :: qs :: _ ->
+    let l = pairs keys in
+    String.concat " | " (List.map (fun q ->
+      String.concat " " (List.map (fun n -> string_of_int (int_of_nat n)) (index (nat_of_int lo) (nat_of_int pa) (nat_of_int co) (nat_of_int op) q l))) (pairs qs))
+  | _ -> failwith "bad index input"
 
 let () =
   if Array.length Sys.argv > 2 && Sys.argv.(1) = "trace" then (trace_file Sys.argv.(2); exit 0);
   let mode = if Array.length Sys.argv > 1 then Sys.argv.(1) else "tokenizer" in
   let f = match mode with
     | "tokenizer" -> tokenizer
+    | "index" -> index_mode
     | "wb" -> wb_mode
     | "report" -> report_mode
     | "sched" -> sched_mode
